@@ -541,6 +541,17 @@ func c09histories(c *Ctx, file, base string, raw []byte, sigs []c09sig, keys []*
 		lines.A[0].Set("quantity", jmut.S("77"))
 		return true
 	})
+	add("document edited into an invalid one, not recalculated", "doc-edited-invalid-stale", func(n *jmut.Node) bool {
+		doc := n.Get("doc")
+		sup := doc.Get("supplier")
+		lines := doc.Get("lines")
+		if sup == nil || sup.K != jmut.Obj || lines == nil || len(lines.A) == 0 {
+			return false
+		}
+		lines.A[0].Set("quantity", jmut.S("77"))
+		sup.Set("name", jmut.S(""))
+		return true
+	})
 	// document edited and recalculated under the original signatures
 	{
 		n, err := jmut.Parse(raw)
